@@ -1,6 +1,7 @@
 CONSTANTS
   TraceFile = "trace.ndjson"
   MaxDepth = 1
+  ExtraKinds = {}
   MaxEntries = 1
 SPECIFICATION TraceSpec
 CONSTRAINT HighWater
